@@ -553,10 +553,13 @@ class RaggedArray(IndexableArray, np.lib.mixins.NDArrayOperatorsMixin):
         return ra - offsets[:, None]
 
     def _row_accumulate(self, operator, dtype=None):
-        starts = self.ravel()[self._shape.starts]
         cm = operator.accumulate(self.ravel(), dtype=dtype)
+        if self.size == 0:
+            return self.__class__(cm, self._shape)
+        row_starts = np.minimum(self._shape.starts, self.size-1)  # trailing empty rows start at the buffer end
+        starts = self.ravel()[row_starts]
         offsets = INVERSE_FUNCS[operator][0](
-            starts, cm[self._shape.starts]
+            starts, cm[row_starts]
         )  # TODO: This is the inverse
         ra = self.__class__(cm, self._shape)
         return INVERSE_FUNCS[operator][1](ra, offsets[:, None])
